@@ -425,6 +425,10 @@ class Manager:
             # be because they're so old they don't dilate at all, or because
             # they're so new that they no longer accommodate our old version
             self.fail(failure.Failure(OldPeerCannotDilateError()))
+            # without a shared version there is nothing to negotiate: stay
+            # in WAITING (stop() still works from there) instead of sending
+            # a PLEASE and connecting with a protocol the peer doesn't speak
+            return
 
         self.start()
 
